@@ -131,6 +131,97 @@ theorem announced_once_partial (σ : Static) (π : PubStatic) (fuel : Nat) (work
     NoReuse [] (payloads σ π fuel work h) ∧ CompletedOnce (payloads σ π fuel work h) :=
   ⟨ids_never_reused σ π fuel work h, completed_at_most_once σ π fuel work h⟩
 
+/-! ## P3b and the known finding `workqueue-prunes-promoted-group-with-undelivered-shared-task` -/
+
+/-- **P3b for deferred fragments, full statement.**  For every well-formed environment that carries
+well-formed data (`DataOk`: a fragment introduced by a task's result lies inside that result's
+data), no incremental entry of the emitted stream targets a path that does not resolve to an
+object of the data assembled so far. -/
+def p3b_defer_full : Prop :=
+  ∀ (σ : Static) (π : PubStatic) (initData : J) (fuel : Nat) (work : Option Work) (h : List Tick),
+    envOk σ fuel work h = true → DataOk σ π initData work h →
+    ∀ v, checkPrefix true (fun _ _ => false) initData (payloads σ π fuel work h) = some v →
+      v.clause ≠ .P3b
+
+/-- The witness (keys: hero = 1, friend = 3, name = 5, slow = 7, i = 9).  Fragments L1 = 0 and
+L3 = 1 are roots at `hero`; F2 = 2 is nested in L3; N = 3 is nested in F2 at `hero.friend`.
+Task 0 (`slow`) ∈ {L1}; task 1 (`friend`) ∈ {L1, F2} — its result introduces N with task 3
+(`i`, synchronous); task 2 (`name`) ∈ {L3}. -/
+def kfStatic : Static where
+  parent g := if g = 2 then some 1 else if g = 3 then some 2 else none
+  tgroups t := if t = 0 then [0] else if t = 1 then [0, 2] else if t = 2 then [1] else [3]
+  mode t := if t = 3 then .sync { value := { groups := [3], path := [1, 3], data := .obj [(9, .leaf 0)] } }
+            else .async
+
+def kfPub : PubStatic where
+  gpath g := if g = 3 then [1, 3] else [1]
+  glabel g := some g
+  spath _ := []
+  slabel _ := none
+
+def kfInit : J := .obj [(1, .obj [])]
+def kfWork : Option Work := some { groups := [0, 1, 2], tasks := [0, 1, 2] }
+def kfFriend : TResult :=
+  { value := { groups := [0, 2], path := [1], data := .obj [(3, .obj [])] },
+    work := some { groups := [3], tasks := [3] } }
+def kfName : TResult := { value := { groups := [1], path := [1], data := .obj [(5, .leaf 1)] } }
+/-- `friend` completes first (L1 still waits for `slow`), then `name` completes L3. -/
+def kfHistory : List Tick := [[.taskSuccess 1 kfFriend], [.taskSuccess 2 kfName]]
+
+/-- On the model, exactly as on the code: when L3 finishes, F2 is pruned as empty although its
+task `friend` has not been delivered (it is shared with the still pending L1); N is announced
+at `hero.friend` and its data delivered while the client only has `{hero: {}}`. -/
+example :
+    ((payloads kfStatic kfPub 8 kfWork kfHistory).map
+      (fun p => (p.pending.map (fun a => (a.id, a.path)), p.incremental.map (·.id), p.completed.map (·.id)))) =
+      [([(0, [1]), (1, [1])], [], []), ([(2, [1, 3])], [1, 2], [1, 2])] ∧
+    checkPrefix true (fun _ _ => false) kfInit (payloads kfStatic kfPub 8 kfWork kfHistory) =
+      some ⟨.P3b, 1, 2⟩ := by
+  decide
+
+theorem kf_envOk : envOk kfStatic 8 kfWork kfHistory = true := by decide
+
+theorem kf_dataOk : DataOk kfStatic kfPub kfInit kfWork kfHistory := by
+  refine ⟨?_, ?_, ?_⟩
+  · intro w hw
+    cases hw
+    refine ⟨rfl, ?_⟩
+    intro g hg
+    simp at hg
+    rcases hg with rfl | rfl | rfl <;> decide
+  · intro t r hm
+    have h3 : t = 3 := by
+      by_cases h : t = 3
+      · exact h
+      · simp [kfStatic, h] at hm
+    subst h3
+    have hr : r = { value := { groups := [3], path := [1, 3], data := .obj [(9, .leaf 0)] } } := by
+      simp [kfStatic] at hm; exact hm.symm
+    subst hr
+    refine ⟨rfl, ?_, rfl, ?_⟩
+    · intro g hg; simp [kfStatic] at hg; subst hg; rfl
+    · intro w hw; cases hw
+  · intro tick ht ev hev
+    simp [kfHistory] at ht
+    rcases ht with rfl | rfl <;> simp at hev <;> subst hev
+    · refine ⟨rfl, ?_, rfl, ?_⟩
+      · intro g hg; simp [kfStatic] at hg; rcases hg with rfl | rfl <;> rfl
+      · intro w hw
+        cases hw
+        refine ⟨rfl, ?_⟩
+        intro g hg
+        simp at hg; subst hg
+        exact ⟨[3], rfl, rfl⟩
+    · refine ⟨rfl, ?_, rfl, ?_⟩
+      · intro g hg; simp [kfStatic] at hg; subst hg; rfl
+      · intro w hw; cases hw
+
+/-- **The known finding refutes P3b on the faithful model**: the full statement is false. -/
+theorem p3b_defer_full_fails : ¬ p3b_defer_full := by
+  intro h
+  have := h kfStatic kfPub kfInit 8 kfWork kfHistory kf_envOk kf_dataOk ⟨.P3b, 1, 2⟩ (by decide)
+  exact this rfl
+
 /-! ## Non-vacuity -/
 
 /-- A three-level nested history: group 0 (root) ← 1 ← 2; task `k` belongs to group `k` and its
